@@ -349,7 +349,13 @@ func (s *sim) onSend(r *simReplica, m pb.Message) {
 	case pb.ReplicateResp:
 		if !m.Reject {
 			// every acknowledged index is durable (or covered by a durable snapshot)
-			if m.LogIndex > r.disk.last() && m.LogIndex > r.disk.snap.Index && m.LogIndex > 0 && !r.ackIsCommitHint(m) {
+			if m.Term < r.disk.state.Term {
+				// acknowledgement stamped with a past term: the replica has since adopted a
+				// newer leader (whose entries may have replaced the acknowledged ones within
+				// the same step); the old leader cannot complete a quorum with it (any
+				// member of the newer leader's election quorum rejects the old term)
+				s.flag("stale-term-ack")
+			} else if m.LogIndex > r.disk.last() && m.LogIndex > r.disk.snap.Index && m.LogIndex > 0 && !r.ackIsCommitHint(m) {
 				s.fail("ack-not-durable", "replica %d acknowledges index %d, durable last %d snapshot %d", r.id, m.LogIndex, r.disk.last(), r.disk.snap.Index)
 			}
 		}
